@@ -949,6 +949,10 @@ class Node(object):
         if type(newChild) == str:
             newChild = self.ownerDocument.createTextNode(newChild)
         if newChild.nodeType == Node.DOCUMENT_FRAGMENT_NODE:
+            # Positions count as in list.insert (negative: from the end),
+            # so that the items of the fragment stay together and in order
+            if i < 0:
+                i = max(0, i + len(self.childNodes))
             for item in newChild:
                 self.insert(i, item, setParent=setParent)
                 i += 1
